@@ -464,7 +464,7 @@ def getattr_(it, obj, name, node=None, default=None, has_default=False):
         return str_method(it, it.fstr_term(obj), name)
     if isinstance(obj, (str, bytes)):
         return Builtin(f"str.{name}", lambda *a, **k: concrete_str_method(it, obj, name, a, k))
-    if isinstance(obj, (list, dict, set, collections.OrderedDict, collections.defaultdict)):
+    if isinstance(obj, (list, dict, set, collections.OrderedDict, collections.defaultdict, collections.deque)):
         return Builtin(f"{type(obj).__name__}.{name}", lambda *a, **k: concrete_container_method(it, obj, name, a, k))
     if isinstance(obj, tuple) and hasattr(obj, "_fields"):
         if name in obj._fields:
@@ -1237,7 +1237,8 @@ def file_method(it, f, name):
 def concrete_container_method(it, obj, name, a, k):
     if name in ("append", "extend", "add", "update", "insert", "clear", "copy", "pop", "popitem", "items",
                 "keys", "values", "get", "setdefault", "discard", "remove", "sort", "index", "count", "reverse",
-                "union", "difference", "intersection", "issubset", "issuperset", "fromkeys", "move_to_end"):
+                "union", "difference", "intersection", "issubset", "issuperset", "fromkeys", "move_to_end",
+                "popleft", "appendleft", "extendleft", "rotate"):
         if name == "sort":
             if any(is_t(x) for x in obj):
                 raise Unsupported("sort of list with symbolic members")
@@ -1464,7 +1465,7 @@ def _register_pure():
     for f in (re.search, re.match, re.fullmatch, re.findall, re.sub, re.split):      # on concrete arguments only
         PURE_OK.add(f)
     for f in (os.path.basename, os.path.join, os.path.dirname, os.path.isabs, struct.pack, struct.unpack,
-              base64.b16decode, collections.namedtuple, collections.defaultdict, collections.OrderedDict,
+              base64.b16decode, collections.namedtuple, collections.defaultdict, collections.OrderedDict, collections.deque,
               socket.AddressFamily, socket.SocketKind, object):
         PURE_OK.add(f)
 
